@@ -168,14 +168,25 @@ def render_iface_decl(iface, grouped=False):
     for ln in iface.get("typedoc", []):
         lines.append("// " + ln)
     lines.append("%s%s interface {" % ("" if grouped else "type ", iface["name"]))
-    for ln in header_comment_lines(iface):
-        lines.append("\t//" + ln)
-    lines.append("\tshoot.RestClient[%s]" % iface["name"])
-    for m in iface["methods"]:
-        lines.append("")
+    # iface["embedpos"]: how many methods are declared ABOVE the embedded shoot.RestClient[T] (which carries the headers= comment);
+    # 0 = the README way (embedded entry first), len(methods) = last
+    pos = min(int(iface.get("embedpos") or 0), len(iface["methods"]))
+
+    def embed():
+        for ln in header_comment_lines(iface):
+            lines.append("\t//" + ln)
+        lines.append("\tshoot.RestClient[%s]" % iface["name"])
+    if pos == 0:
+        embed()
+    for k, m in enumerate(iface["methods"]):
+        if k > 0 or pos == 0:
+            lines.append("")
         for ln in directive_lines(m):
             lines.append("\t" + ln)
         lines.append("\t" + signature(m, iface.get("ctxpkg") or "context"))
+        if pos == k + 1:
+            lines.append("")
+            embed()
     lines.append("}")
     if grouped:
         lines = [("\t" + ln) if ln else "" for ln in lines]
@@ -337,7 +348,8 @@ def redirect_legs(redirect):
     return legs
 
 
-def c10_oracle(pkg, iface, statuses, bodies, faults, redirect=None, retry=None, logged=None, logged_statuses=None, configured=None):
+def c10_oracle(pkg, iface, statuses, bodies, faults, redirect=None, retry=None, logged=None, logged_statuses=None, configured=None,
+               stubbed=None, stub_statuses=None, wire=None, wire_statuses=None):
     """redirect: None | (firsts, seconds, bodies) (see redirect_legs);  retry: None | {n: [script specs]}"""
     n = iface["name"]
     lines = ["package " + pkg, "", 'import (', '\t"context"', '\t"net/http"', "", '\t"github.com/lopolopen/shoot"', '\t"github.com/lopolopen/shoot/middleware"', '\t"verifcases/vrest"', ")", "",
@@ -384,6 +396,28 @@ def c10_oracle(pkg, iface, statuses, bodies, faults, redirect=None, retry=None, 
                   '\t\tvrest.StatusMatrix(emit, sc4, nil, ms4, vrest.Statuses("%s"), []string{%s}, nil)' % (
                       logged_statuses, ", ".join('"%s"' % b for b in bodies)),
                   "\t}"]
+    for tag, logging, form in (stubbed or []):
+        # the answers come from a middleware of the chain (registered with shoot.Use) that answers by itself with a hand-built response;
+        # the base transport must never be reached
+        opts = ['shoot.BaseURL("http://verif.invalid/api")'] + (["shoot.EnableLogging(true)"] if logging else []) + ["shoot.Use(vrest.TagMW(1))"]
+        lines += ["\t{", "\t\told := http.DefaultTransport", "\t\tsc6 := &vrest.Script{}", "\t\thttp.DefaultTransport = vrest.Unreachable{}",
+                  '\t\tc6 := shoot.NewRest[%s](%s, shoot.Use(vrest.StubMW(sc6, "%s")))' % (n, ", ".join(opts), form),
+                  "\t\thttp.DefaultTransport = old",
+                  "\t\tms6 := verifMethods(c6)", "\t\tfor i := range ms6 {", '\t\t\tms6[i].Name += "@%s"' % tag, "\t\t}",
+                  '\t\tvrest.StatusMatrix(emit, sc6, nil, ms6, vrest.Statuses("%s"), []string{%s}, nil)' % (
+                      stub_statuses, ", ".join('"%s"' % b for b in bodies)),
+                  "\t}"]
+    if wire:
+        # a REAL transport and a real server: http.DefaultTransport is an *http.Transport (in-memory connections) while NewRest builds the
+        # client, and a net/http server answers in the encodings servers use
+        lines += ["\t{", "\t\told := http.DefaultTransport", "\t\tws := &vrest.Wire{}", "\t\ttr, stop := vrest.StartWire(ws)", "\t\thttp.DefaultTransport = tr",
+                  '\t\tc7 := shoot.NewRest[%s](shoot.BaseURL("http://verif.invalid/api"))' % n,
+                  '\t\tc8 := shoot.NewRest[%s](shoot.BaseURL("http://verif.invalid/api"), shoot.EnableLogging(true), shoot.Use(vrest.TagMW(1)))' % n,
+                  "\t\thttp.DefaultTransport = old", "\t\t_, _ = c7, c8"]
+        for k, mode in enumerate(wire):
+            lines.append('\t\tvrest.WireMatrix(emit, ws, verifMethods(%s), "%s", vrest.Statuses("%s"), []string{%s})' % (
+                "c7" if k % 2 == 0 else "c8", mode, wire_statuses, ", ".join('"%s"' % b for b in bodies if b != "broken")))
+        lines += ["\t\tstop()", "\t}"]
     for tag, logging, k in (logged or []):
         # transport faults through a chain with logging and k pass-through middlewares in front of the scripted base
         opts = ['shoot.BaseURL("http://verif.invalid/api")'] + ["shoot.Use(vrest.TagMW(%d))" % (j + 1) for j in range(k)]
